@@ -192,6 +192,32 @@ def search(rep: C.Report, tier: str, broken):
                               {"n": n, "order": order, "x": x, "dx": h, "bounds": [lo, hi],
                                "evaluated": pts.tolist(), "width_in_steps": None if lo is None or hi is None else (hi - lo) / h},
                               finding_key=KNOWN_KEY_NARROW if narrow else f"C19:out-of-bounds:{n}:{order}:{side}")
+    # directed float-edge stream: the point lies EXACTLY one or two (floating-point) steps from a finite bound, with non-dyadic steps; the
+    # stencil has to be chosen with the same step the abscissae are computed with, or its outermost node lands a few ulp outside
+    for i in range(1500 if tier == "quick" else 20000):
+        n, order = r.choice((1, 2)), r.choice((2, 4))
+        h = 10.0 ** r.uniform(-5, 5)
+        x = r.uniform(-3, 3) * r.choice((1.0, h, 100.0))
+        k = r.choice((1, 2)) if order == 4 else 1
+        side = r.choice(("lo", "hi"))
+        lo, hi = (x - k * h, np.inf) if side == "lo" else (-np.inf, x + k * h)
+        seen = []
+
+        def f2(y, *a):
+            seen.append(np.array(y, dtype=float).ravel())
+            return np.asarray(y, dtype=float) * 0.0 + 1.0
+        try:
+            helpers.derivative(f2, x, n=n, order=order, bounds=(lo, hi), dx=h)
+        except AssertionError:
+            continue
+        pts = np.concatenate(seen)
+        rep.case(key=("aligned", n, order, side, k, round(np.log10(h))))
+        rep.count("lattice-aligned points next to a bound")
+        if pts.min() < lo or pts.max() > hi:
+            rep.violation(f"derivative evaluated f outside bounds (n={n}, order={order}) for a point exactly {k} step(s) from the bound",
+                          {"n": n, "order": order, "x": x, "dx": h, "bounds": [lo, hi], "evaluated": pts.tolist(),
+                           "overshoot": float(max(lo - pts.min(), pts.max() - hi))}, finding_key=f"C19:out-of-bounds:aligned:{side}")
+            break
     # WallGo's own call site: EffectivePotential.derivT uses bounds (0, inf)
     for k in range(40 if tier == "quick" else 400):
         T = 10 ** r.uniform(-3, 1)
